@@ -1,12 +1,73 @@
 (* C19 -- property theorems only.  Proofs live in C19/Proofs*.v. *)
 From Coq Require Import NArith List.
-From DV Require Import Base.Outcome Base.Bytes Base.Names Base.PName C19.Gen C19.Model.
-From DV Require Import C19.ProofsDec.
+From DV Require Import Base.Outcome Base.Bytes Base.Names Base.PName C19.Gen C19.Model
+  C19.ProofsDec C19.ProofsOld C19.ProofsNew C19.ProofsAgree.
 Import ListNotations.
 Local Open Scope N_scope.
 
+(* NameBuf::{split,parse}_message_bytes never panic and never loop, for every
+   contents and every start offset *)
+Theorem C19_new_split_total : forall c start, no_panic (new_split c start).
+Proof. exact new_split_total. Qed.
+Print Assumptions C19_new_split_total.
+
+Theorem C19_new_parse_total : forall c start, no_panic (new_parse c start).
+Proof. exact new_parse_total. Qed.
+Print Assumptions C19_new_parse_total.
+
+Theorem C19_new_parse_is_split : forall c start w,
+  new_parse c start = Ok w <-> new_split c start = Ok (w, len c).
+Proof. exact new_parse_is_split. Qed.
+Print Assumptions C19_new_parse_is_split.
+
+(* both readers decode exactly the paths of the message: same abstract meaning,
+   they differ only in the pointer rule (R_old: target < pointer position;
+   R_new: 12 <= target < start of the current segment) *)
+Theorem C19_old_reader_is_path : forall m p n e,
+  decode_name m p (mlen m) = Ok (n, e) <-> dpath R_old m p p 0 n e.
+Proof. intros; split; [apply old_sound|apply old_complete]. Qed.
+Print Assumptions C19_old_reader_is_path.
+
+Theorem C19_new_reader_is_path : forall h c, length h = 12%nat -> wf_bytes c ->
+  forall start,
+  (forall w e, new_split c start = Ok (w, e) ->
+     exists n, w = wire_abs n /\ dpath R_new (h ++ c) (12 + start) (12 + start) 0 n (12 + e)) /\
+  (forall n e, dpath R_new (h ++ c) (12 + start) (12 + start) 0 n e ->
+     new_split c start = Ok (wire_abs n, e - 12) /\ 12 <= e).
+Proof. intros h c Hh Hwf start. split; [apply new_split_sound|apply new_split_complete]; assumption. Qed.
+Print Assumptions C19_new_reader_is_path.
+
+(* whatever the new reader accepts the old reader accepts, with the same
+   labels and the same end position: no exception *)
+Theorem C19_new_refines_old : forall h c, length h = 12%nat -> wf_bytes c ->
+  forall start w e, new_split c start = Ok (w, e) ->
+  exists n, decode_name (h ++ c) (12 + start) (mlen (h ++ c)) = Ok (n, 12 + e) /\ w = wire_abs n.
+Proof. exact new_refines_old. Qed.
+Print Assumptions C19_new_refines_old.
+
+(* C19 for names, outside the two known classes: both accept or both reject,
+   and when they accept they reconstruct the same labels and end position *)
+Theorem C19_agree_outside_known : forall h c, length h = 12%nat -> wf_bytes c ->
+  forall start,
+  ~ PtrIntoOwnSegment (h ++ c) (12 + start) -> ~ PtrIntoHeader (h ++ c) (12 + start) ->
+  is_ok (new_split c start) = is_ok (decode_name (h ++ c) (12 + start) (mlen (h ++ c))) /\
+  (forall w e, new_split c start = Ok (w, e) ->
+     exists n, decode_name (h ++ c) (12 + start) (mlen (h ++ c)) = Ok (n, 12 + e) /\ w = wire_abs n) /\
+  (forall n e, decode_name (h ++ c) (12 + start) (mlen (h ++ c)) = Ok (n, e) ->
+     12 <= e /\ new_split c start = Ok (wire_abs n, e - 12)).
+Proof. exact agree_outside_known. Qed.
+Print Assumptions C19_agree_outside_known.
+
+(* ... and the full statement is false: known finding ptr_into_own_segment *)
 Theorem C19_agree_refuted_own_segment :
-  exists c, exists n e, c19_old (hdr0 ++ c) 12 = Ok (n, e) /\ new_split c 0 = Err E_PARSE /\
+  exists c n e, c19_old (hdr0 ++ c) 12 = Ok (n, e) /\ new_split c 0 = Err E_PARSE /\
     PtrIntoOwnSegment (hdr0 ++ c) 12.
 Proof. exists [3;1;122;0;192;13]. eexists. eexists. exact agree_refuted_own_segment. Qed.
 Print Assumptions C19_agree_refuted_own_segment.
+
+(* finding ptr_into_header: the old reader follows pointers into the 12-octet header *)
+Theorem C19_agree_refuted_header :
+  exists c n e, c19_old (hdr0 ++ c) 12 = Ok (n, e) /\ new_split c 0 = Err E_PARSE /\
+    PtrIntoHeader (hdr0 ++ c) 12.
+Proof. exists [192;11]. eexists. eexists. exact agree_refuted_header. Qed.
+Print Assumptions C19_agree_refuted_header.
